@@ -1,3 +1,150 @@
 (** C41 — proofs about the ID generator model. *)
+From Coq Require Import DecimalN.
 From Akita Require Import Lib.Base C41.Model.
 Local Open Scope N_scope.
+
+(** [seqN c n] = c+1, c+2, ..., c+n *)
+Fixpoint seqN (c : N) (n : nat) : list N :=
+  match n with
+  | O => []
+  | S m => (c + 1) :: seqN (c + 1) m
+  end.
+
+Lemma seqN_in c n x : In x (seqN c n) <-> c < x <= c + N.of_nat n.
+Proof.
+  revert c. induction n as [|n IH]; intro c; cbn [seqN In].
+  - split; [tauto|lia].
+  - rewrite IH. split; [intros [<-|H]; lia|]. intro H.
+    destruct (N.eq_dec (c + 1) x); [left; assumption|right; lia].
+Qed.
+
+Lemma seqN_nodup c n : NoDup (seqN c n).
+Proof.
+  revert c. induction n as [|n IH]; intro c; cbn [seqN]; constructor; [|apply IH].
+  rewrite seqN_in. lia.
+Qed.
+
+Lemma seqN_length c n : length (seqN c n) = n.
+Proof. revert c. induction n as [|n IH]; intro c; cbn [seqN length]; [reflexivity|rewrite IH; reflexivity]. Qed.
+
+Lemma seqN_nonzero c n : Forall (fun x => x <> 0) (seqN c n).
+Proof. apply Forall_forall. intros x Hx. apply seqN_in in Hx. lia. Qed.
+
+(** ------------------------------------------------------------------ *)
+(** Part 1: the sequential state machine *)
+
+Lemma generate_small s : next_id s + 1 < two64 ->
+  generate s = (mk_st (gkind s) (next_id s + 1) (saves s), next_id s + 1).
+Proof. intro H. unfold generate. rewrite (w64_small _ H). reflexivity. Qed.
+
+Lemma gen_n_exact n : forall s, next_id s + N.of_nat n < two64 ->
+  gen_n s n = (mk_st (gkind s) (next_id s + N.of_nat n) (saves s), seqN (next_id s) n).
+Proof.
+  induction n as [|n IH]; intros s H.
+  - cbn [gen_n seqN]. destruct s; cbn. rewrite N.add_0_r. reflexivity.
+  - rewrite Nat2N.inj_succ in *. cbn [gen_n seqN]. rewrite generate_small by lia.
+    rewrite IH by (cbn [next_id]; lia). cbn [gkind next_id saves].
+    replace (next_id s + 1 + N.of_nat n) with (next_id s + N.succ (N.of_nat n)) by lia.
+    reflexivity.
+Qed.
+
+Lemma gen_n_frame n : forall s s' xs, gen_n s n = (s', xs) -> gkind s' = gkind s /\ saves s' = saves s.
+Proof.
+  induction n as [|n IH]; intros s s' xs E.
+  - inversion E; subst. split; reflexivity.
+  - cbn [gen_n] in E. unfold generate in E.
+    destruct (gen_n (mk_st (gkind s) (w64 (next_id s + 1)) (saves s)) n) as [s1 ys] eqn:E1.
+    inversion E; subst. destruct (IH _ _ _ E1) as [A B]. cbn [gkind saves] in *. split; assumption.
+Qed.
+
+(** the IDs handed out depend on the counter only *)
+Lemma gen_n_ext n : forall a b, next_id a = next_id b -> snd (gen_n a n) = snd (gen_n b n).
+Proof.
+  induction n as [|n IH]; intros a b E; [reflexivity|].
+  cbn [gen_n]. unfold generate. rewrite E.
+  specialize (IH (mk_st (gkind a) (w64 (next_id b + 1)) (saves a))
+                 (mk_st (gkind b) (w64 (next_id b + 1)) (saves b)) eq_refl).
+  destruct (gen_n (mk_st (gkind a) _ _) n), (gen_n (mk_st (gkind b) _ _) n).
+  cbn [snd] in *. congruence.
+Qed.
+
+(** checkpoint text round trip *)
+Lemma strip_prefix_app p l : strip_prefix p (p ++ l) = Some l.
+Proof. induction p as [|x p IH]; cbn; [reflexivity|]. rewrite N.eqb_refl. exact IH. Qed.
+
+Lemma read_uint_bytes u : read_uint (uint_bytes u ++ ck_suffix) = (u, ck_suffix).
+Proof.
+  induction u; cbn [uint_bytes app]; [reflexivity|..];
+    cbn [read_uint]; rewrite IHu; reflexivity.
+Qed.
+
+Lemma to_uint_not_nil n : N.to_uint n <> Decimal.Nil.
+Proof.
+  intro E. pose proof (DecimalN.Unsigned.of_to n) as H. rewrite E in H.
+  cbn in H. subst n. discriminate.
+Qed.
+
+Lemma parse_save n : n < two64 -> parse_saved (save_bytes n) = Some n.
+Proof.
+  intro H. unfold parse_saved, save_bytes, dec_bytes.
+  rewrite strip_prefix_app, read_uint_bytes.
+  pose proof (to_uint_not_nil n) as Hn. pose proof (DecimalN.Unsigned.of_to n) as Hr.
+  destruct (N.to_uint n) eqn:E; [congruence|..]; rewrite Hr;
+    replace (list_eqb N.eqb ck_suffix ck_suffix) with true by reflexivity;
+    cbn [andb]; destruct (n <? two64) eqn:El; try reflexivity; lia.
+Qed.
+
+(** restoring a checkpoint written in state [s] makes any sequential generator
+    continue exactly as [s] would have *)
+Lemma restore_continues s s2 i : gkind s = Seq -> next_id s < two64 -> gkind s2 = Seq ->
+  nth_error (saves s2) i = Some (save_bytes (next_id s)) ->
+  exists s2', step s2 (LoadSaved i) = (s2', OOk) /\ next_id s2' = next_id s /\
+              forall n, snd (gen_n s2' n) = snd (gen_n s n).
+Proof.
+  intros Hk Hlt Hk2 Hnth. cbn [step]. rewrite Hk2, Hnth, (parse_save _ Hlt).
+  eexists. split; [reflexivity|]. split; [reflexivity|].
+  intro n. apply gen_n_ext. reflexivity.
+Qed.
+
+Lemma save_step s : gkind s = Seq ->
+  step s Save = (mk_st Seq (next_id s) (saves s ++ [save_bytes (next_id s)]), OSaved (save_bytes (next_id s))).
+Proof. intro Hk. cbn [step]. rewrite Hk. reflexivity. Qed.
+
+(** ------------------------------------------------------------------ *)
+(** Part 2: every interleaving of atomic fetch-and-add steps *)
+
+Lemma crun_atomic sched : forall s, ctr s + N.of_nat (length sched) < two64 ->
+  ctr (crun Atomic s sched) = ctr s + N.of_nat (length sched) /\
+  ids (crun Atomic s sched) = rev (seqN (ctr s) (length sched)) ++ ids s.
+Proof.
+  unfold crun. induction sched as [|i r IH]; intros s H.
+  - cbn. split; [lia|reflexivity].
+  - cbn [fold_left length seqN rev]. cbn [length] in H. rewrite Nat2N.inj_succ in *.
+    assert (Hs : w64 (ctr s + 1) = ctr s + 1) by (apply w64_small; lia).
+    assert (Hc : ctr (cstep Atomic s i) = ctr s + 1) by (cbn [cstep ctr]; exact Hs).
+    assert (Hi : ids (cstep Atomic s i) = (ctr s + 1) :: ids s).
+    { unfold ids. cbn [cstep log map snd]. rewrite Hs. reflexivity. }
+    destruct (IH (cstep Atomic s i)) as [A B]; [rewrite Hc; lia|].
+    rewrite A, B, Hc, Hi. split; [lia|]. rewrite <- app_assoc. reflexivity.
+Qed.
+
+Lemma nodup_map_snd_owner (l : list (nat * N)) i j a :
+  NoDup (map snd l) -> In (i, a) l -> In (j, a) l -> i = j.
+Proof.
+  induction l as [|[k b] l IH]; cbn [map snd In]; intros Hnd Hi Hj; [tauto|].
+  inversion Hnd as [|? ? Hnotin Hnd']; subst.
+  destruct Hi as [Ei|Hi], Hj as [Ej|Hj].
+  - congruence.
+  - inversion Ei; subst. exfalso. apply Hnotin. apply in_map_iff. exists (j, a). auto.
+  - inversion Ej; subst. exfalso. apply Hnotin. apply in_map_iff. exists (i, a). auto.
+  - auto.
+Qed.
+
+Lemma ids_of_in i s a : In a (ids_of i s) <-> In (i, a) (log s).
+Proof.
+  unfold ids_of. rewrite in_map_iff. split.
+  - intros [[k b] [E Hin]]. cbn in E. subst b. apply filter_In in Hin. destruct Hin as [Hin Hk].
+    cbn in Hk. apply Nat.eqb_eq in Hk. subst k. exact Hin.
+  - intro Hin. exists (i, a). split; [reflexivity|]. apply filter_In. split; [exact Hin|].
+    cbn. apply Nat.eqb_refl.
+Qed.
